@@ -44,6 +44,29 @@ pub(crate) struct SyscallState {
     pipe_contents: HashMap<u64, Vec<u8>>,
 }
 
+#[cfg(ax_verif)]
+impl SyscallState {
+    pub(crate) fn verif_brk(&self) -> (u64, u64) {
+        (self.brk_start, self.brk_length)
+    }
+
+    pub(crate) fn verif_pipes(&self) -> Vec<(u64, u64, Vec<u8>)> {
+        let mut pipes: Vec<(u64, u64, Vec<u8>)> = self
+            .pipes_read_ends
+            .iter()
+            .map(|(r, w)| {
+                (
+                    *r,
+                    *w,
+                    self.pipe_contents.get(r).cloned().unwrap_or_default(),
+                )
+            })
+            .collect();
+        pipes.sort();
+        pipes
+    }
+}
+
 impl TryFrom<u16> for Syscall {
     type Error = AxError;
 
